@@ -62,6 +62,9 @@ func init() {
 		checkBinaryActions(r, ga, "c15")
 		checkActionsDoNotRewrite(r, prog, "c15")
 		checkActionErrors(r, prog, "c15")
+		r.importing = "C11"
+		checkParseWrappersForward(r, prog, "c11") // ParseReader and ParseFile accept what Parse accepts: they hand on all of the input, the options and the verdict
+		checkWrapperResults(r, prog, "c11")
 		r.importing = "C01"
 		checkBindingModes(r, prog, ga, "c01") // "binding mode and names": each form of `as …` sets exactly the names of its mode
 		r.importing = ""
@@ -106,6 +109,8 @@ func init() {
 		r.importing = "C15"
 		checkActionErrors(r, prog, "c15") // what was printed is read back: no action refuses, of its own accord, a construct the grammar produces
 		checkAnchoring(r, ga)             // … all of it: every alternative of the entry rule runs to the end of the input
+		r.importing = "C11"
+		checkParseWrappersForward(r, prog, "c11") // … of any length, through any entry point
 		r.importing = ""
 		r.importing = "C19"
 		checkSelectorString(r, prog, "c19") // a bare value's text is Selector.String(): dotted join of the parts
